@@ -112,7 +112,9 @@ def strategy():
         'handlers': st.lists(st.integers(0, 7), min_size=2, max_size=6),     # 0: a handler listening to nothing
         'ops': worldops.chunked(op, 36),
         # scale: 0, or how many times every (direct) dispatch of the history is repeated
-        'amp': worldops.size_amp(none=24)})
+        'amp': worldops.size_amp(none=24),
+        # finalizers: the program attaches a weakref.finalize to every handler it creates, which dispatches an event
+        'finalizers': st.integers(0, 2).map(lambda k: int(k == 2))})
 
 
 class Run:
@@ -122,6 +124,10 @@ class Run:
         self.n = len(case['handlers'])
         self.flags = collections.Counter()
         self.step_ix = -1
+        self.pending_violation = None
+        self.closed = False
+        self.executing = []
+        self.outer = []
         self.ref_slot = {}
         self.perm = None
         self.order_used = 0
@@ -169,16 +175,24 @@ class Run:
         receiver = None
         script = self.scripts.pop(cls_ix, None)
         if script is not None:
-            if script[1] == 3:
-                self.clear_all(from_callback=cls_ix)
-            else:
-                self.kill(script[0], script[1], from_callback=cls_ix)
+            # (a handler whose callback is running is referenced by that call: dropping the program's references
+            # cannot make it go away before the callback returns - also when the drop comes from a nested dispatch)
+            self.executing.append(cls_ix)
+            try:
+                if script[1] == 3:
+                    self.clear_all(from_callback=cls_ix)
+                else:
+                    self.kill(script[0], script[1], from_callback=cls_ix)
+            finally:
+                self.executing.pop()
 
     def kill(self, j, how, from_callback=None):
         """make handler j disappear (its last strong reference goes away)."""
         j %= self.n
         if not self.alive(j):
             return False
+        for fr in self.outer:
+            fr['killed'].add(j)
         if self.frame is not None:
             self.frame['killed'].add(j)
             if (self.registered[j] and self.frame['ev'] in self.classes[j].evs
@@ -199,7 +213,7 @@ class Run:
             self.entity[j] = None
             self.strong[j] = None
         self.registered[j] = False
-        if j != from_callback:
+        if j != from_callback and j not in self.executing:
             if self.weak[j]() is not None:
                 gc.collect()        # reference cycles are legitimate; anything else shows below
                 self.flags['needed_gc_collect'] += 1
@@ -220,6 +234,8 @@ class Run:
         for j in range(self.n):
             if not was_alive[j]:
                 continue
+            for fr in self.outer:
+                fr['killed'].add(j)
             if self.frame is not None:
                 self.frame['killed'].add(j)
                 if self.registered[j] and self.frame['ev'] in self.classes[j].evs and j not in self.frame['calls']:
@@ -230,14 +246,16 @@ class Run:
                 self.strong[j] = None
         gc.collect()
         for j in range(self.n):
-            if j != from_callback and self.weak[j] is not None and self.weak[j]() is not None:
+            if (j != from_callback and j not in self.executing and self.weak[j] is not None
+                    and self.weak[j]() is not None):
                 self.viol('handler_kept_alive_after_last_reference_dropped', handler=j, after='clear()')
         self.strong[from_callback] = None
 
     # ---- ops ----------------------------------------------------------------------------------------
     def op_add(self, i):
         i %= self.n
-        if not self.alive(i):
+        created = not self.alive(i)
+        if created:
             h = self.classes[i]()
             self.weak[i] = weakref.ref(h)
             self.registered[i] = False
@@ -254,7 +272,39 @@ class Run:
             if self.entity[i] is None:
                 self.entity[i] = self.d.create_entity(h)
         self.registered[i] = True
+        if created and self.case.get('finalizers') and self.classes[i].evs:
+            # the program watches the death of its handlers (weakref.finalize, registered after the handler was
+            # added) and announces it by dispatching an event the handler listened to - from inside the finalizer,
+            # i.e. while the handler is going away
+            weakref.finalize(h, self.on_finalize, i, sorted(self.classes[i].evs)[0])
+            self.flags['handler_with_a_finalizer_that_dispatches'] += 1
         h = None
+
+    def on_finalize(self, i, ev):
+        """runs inside the interpreter's weak reference machinery: exceptions raised here would only be printed, so a
+        violation is stored and raised by the operation that is running"""
+        if self.closed:
+            return
+        saved = self.frame
+        if saved is not None:
+            self.outer.append(saved)        # a death inside the nested dispatch is a death during the outer ones too
+        self.frame = {'ev': ev, 'calls': [], 'killed': set(), 'finalizer_of': i}
+        try:
+            self.d.dispatch(ev, 'announced by a finalizer')
+            for k in self.frame['calls']:
+                if k == i or (not self.alive(k) and k not in self.frame['killed']):
+                    raise PropertyViolation('dispatch_reached_a_handler_that_is_gone_or_not_registered',
+                                            {'event': ev, 'handler': k, 'dispatched_from': 'the finalizer of handler %d' % i})
+            self.flags['dispatch_from_a_finalizer'] += 1
+        except PropertyViolation as v:
+            self.pending_violation = self.pending_violation or v
+        except Exception as exc:
+            self.pending_violation = self.pending_violation or PropertyViolation(
+                'dispatch_raised', {'event': ev, 'exception': repr(exc), 'dispatched_from': 'a finalizer'})
+        finally:
+            if saved is not None:
+                self.outer.pop()
+            self.frame = saved
 
     def op_remove(self, i):
         i %= self.n
@@ -357,6 +407,8 @@ class Run:
             self.d = desper.World() if self.mode else desper.EventDispatcher()
             for self.step_ix, op in enumerate(self.case['ops']):
                 getattr(self, 'op_' + op[0])(*op[1:])
+                if self.pending_violation is not None:
+                    raise self.pending_violation
             # closing sweep: everything forgotten is dead, every event still dispatches normally
             self.step_ix = len(self.case['ops'])
             for i in range(self.n):
@@ -367,7 +419,10 @@ class Run:
                         self.viol('handler_kept_alive_after_last_reference_dropped', handler=i)
             for e in range(3):
                 self.op_dispatch(12 + e, 0)
+            if self.pending_violation is not None:
+                raise self.pending_violation
         finally:
+            self.closed = True          # finalizers that run after the case (world torn down) do nothing
             desper.events.__dict__.pop('set', None)
             OrderedSet.run = None
             self.scripts.clear()
